@@ -1,1 +1,17 @@
 import BddVerif.Props.C08
+#print axioms B.Props.C08.paths_partition
+#print axioms B.Props.C08.paths_partition_root
+#print axioms B.Props.C08.extensions_spec
+#print axioms B.Props.C08.sat_valuations_spec
+#print axioms B.Props.C08.val_next_spec
+#print axioms B.Props.C08.clause_vals_iter_eq
+#print axioms B.Props.C08.clause_vals_new_panics
+#print axioms B.Props.C08.unconstrained_iter_eq
+#print axioms B.Props.C08.path_iter_eq
+#print axioms B.Props.C08.to_dnf_eq_paths
+#print axioms B.Props.C08.to_dnf_eq_sat_clauses
+#print axioms B.Props.C08.sat_iter_eq
+#print axioms B.Props.C08.path_iter_redundant_panics
+#print axioms B.Props.C08.owned_returns_bdd
+#print axioms B.Props.C08.owned_same_sequences
+#print axioms B.Props.C08.false_constant
